@@ -127,7 +127,7 @@ func (c *RunnerCloserManager) AddCloser(closers ...any) error {
 	c.mngr.lock.Lock()
 	defer c.mngr.lock.Unlock()
 
-	// Run holds the lock while the closers run: check again now that we have it,
+	// Run takes the list of closers under the lock: check again now that we have it,
 	// a closer accepted after that point would never be called.
 	if c.closing.Load() {
 		return ErrManagerAlreadyClosed
@@ -196,24 +196,29 @@ func (c *RunnerCloserManager) Run(ctx context.Context) error {
 
 	rErr := <-errCh
 
+	// AddCloser checks the flag again under this lock, so from here on the list of
+	// closers is final. The lock is not held while the closers run: an AddCloser that
+	// had passed its first check would otherwise wait for all of them, and a closer
+	// that waits for the goroutine making that call would never finish.
 	c.mngr.lock.Lock()
-	defer c.mngr.lock.Unlock()
 	c.closing.Store(true)
+	closers := c.closers
+	c.mngr.lock.Unlock()
 
-	errs := make([]error, len(c.closers)+1)
+	errs := make([]error, len(closers)+1)
 	errs[0] = rErr
 
-	for _, closer := range c.closers {
+	for _, closer := range closers {
 		go func(closer func() error) {
 			errCh <- closer()
 		}(closer)
 	}
 
 	// Wait for all closers to be done.
-	for i := 1; i < len(c.closers)+1; i++ {
+	for i := 1; i < len(closers)+1; i++ {
 		// Close the fatal shutdown goroutine if all closers are done. This is a
 		// no-op if the fatal go routine is not defined.
-		if i == len(c.closers) {
+		if i == len(closers) {
 			close(c.closeFatalShutdown)
 		}
 		errs[i] = <-errCh
